@@ -120,6 +120,17 @@ func (gc *primaryGC) gc(ctx context.Context, lowUsePercent int64, timeLimit time
 	}
 
 	vhook.Point("pgc.freelistDone")
+	// Records whose freelist entry has not been applied yet still look live
+	// on disk. Relocating such a record would re-point the index at stale
+	// data, so only relocate records when no freelist entries are pending,
+	// neither in memory (superseded since the last store flush) nor in the
+	// freelist file (flushed while an unfinished .gc file was processed).
+	relocate := gc.freeList.OutstandingWork() == 0
+	if relocate {
+		flSize, err := gc.freeList.StorageSize()
+		relocate = err == nil && flSize == 0
+	}
+
 	// Remove all files in the affected set from the visited set.
 	for fileNum := range affectedSet {
 		delete(gc.visited, fileNum)
@@ -148,7 +159,7 @@ func (gc *primaryGC) gc(ctx context.Context, lowUsePercent int64, timeLimit time
 		filePath := primaryFileName(gc.primary.basePath, fileNum)
 
 		vhook.Point("pgc.file")
-		dead, err := gc.reapRecords(fileNum, lowUsePercent)
+		dead, err := gc.reapRecords(fileNum, lowUsePercent, relocate)
 		if err != nil {
 			return gc.reclaimed, err
 		}
@@ -166,7 +177,10 @@ func (gc *primaryGC) gc(ctx context.Context, lowUsePercent int64, timeLimit time
 			log.Debugw("Removed empty primary file", "file", filepath.Base(filePath))
 		}
 
-		gc.visited[fileNum] = struct{}{}
+		// If relocation was held back, low-use files need another visit.
+		if relocate {
+			gc.visited[fileNum] = struct{}{}
+		}
 
 		if ctx.Err() != nil {
 			if err == context.DeadlineExceeded {
@@ -181,7 +195,7 @@ func (gc *primaryGC) gc(ctx context.Context, lowUsePercent int64, timeLimit time
 
 // reapRecords removes empty records from the end of the file. If the file is
 // empty, then returns true to indicate the file can be deleted.
-func (gc *primaryGC) reapRecords(fileNum uint32, lowUsePercent int64) (bool, error) {
+func (gc *primaryGC) reapRecords(fileNum uint32, lowUsePercent int64, relocate bool) (bool, error) {
 	file, err := os.OpenFile(primaryFileName(gc.primary.basePath, fileNum), os.O_RDWR, 0644)
 	if err != nil {
 		return false, fmt.Errorf("cannot open primary file: %w", err)
@@ -292,7 +306,7 @@ func (gc *primaryGC) reapRecords(fileNum uint32, lowUsePercent int64) (bool, err
 	// If a sufficient percent of the records in the file are free, rewrite the
 	// last 2 records, that are still in use, into a later primary. This will
 	// allow low-use primary files to evaporate over time.
-	if 100*totalFree >= lowUsePercent*(totalFree+totalBusy) {
+	if relocate && 100*totalFree >= lowUsePercent*(totalFree+totalBusy) {
 		scratch := make([]byte, 1024)
 
 		for busyAt >= 0 {
